@@ -1325,13 +1325,15 @@ class Atoms:
 
 
     def __delitem__(self, indices):
+        num_atoms = len(self)
         self.positions = np.delete(self.positions, indices, axis=0)
         self.atom_types = np.delete(self.atom_types, indices, axis=0)
         self.charges = np.delete(self.charges, indices, axis=0)
         self.groups = np.delete(self.groups, indices, axis=0)
         self.extra_atom_fields = np.delete(self.extra_atom_fields, indices, axis=0)
 
-        sorted_indices = sorted(indices, reverse=True)
+        # negative indices count from the end, as they do for the per-atom arrays above
+        sorted_indices = sorted({i % num_atoms for i in indices}, reverse=True)
         if len(self.bonds) > 0:
             self.bonds, arr_idx_to_delete = self._delete_and_reindex_atom_index_array(self.bonds, sorted_indices)
             self.bond_types = np.delete(self.bond_types, arr_idx_to_delete, axis=0)
